@@ -35,6 +35,12 @@ NEEDS = {
  'C16b': ('CropAndPad.apply_to_dicom passes the row factor as scale_x and the column factor as scale_y', 'CropAndPad(keep_size=True) with different row and column factors, dicom target'),
  'C18b': ('unsharp_mask compares |residual| >= threshold', 'UnsharpMask(threshold=0.0) on a volume with flat regions thicker than the kernel radius'),
  'C19b': ('RandomCropNearBBox.apply_to_bbox clamps x_max with rows and y_max with cols', 'RandomCropNearBBox on a frame with rows != cols whose shifted window passes min(rows, cols)'),
+ 'C04b': ('filter_bboxes tests the clipped planar area, not the clipped volume, for emptiness', 'a box wholly outside the frame along z only, zero volume / depth thresholds, check_each_transform=False'),
+ 'C05b': ('convert_keypoint_to_dicaugment slices the xyza tail from index 5', 'KeypointParams(format="xyza") with a label field or an inline trailing field'),
+ 'C08b': ('convert_bbox_to_dicaugment runs check_bbox only for the formats it normalises (yolo skipped)', 'yolo_3d box whose centre and size are in (0, 1] but which extends past a frame face'),
+ 'C09b': ('PixelDropout draws the float drop value from np.random instead of the seeded state', 'PixelDropout(drop_value=None) on a float image, numpy global state differing between runs'),
+ 'C10b': ('DataProcessor.postprocess unpacks the image shape as (cols, rows, slices)', 'Compose with pixel-format boxes or keypoints on a frame with rows != cols, no transform firing'),
+ 'C17b': ('PadIfNeeded.apply_to_bbox shifts z_max by pad_back (same edit as C02, produced independently for C17)', 'PadIfNeeded with pad_front != pad_back followed by the inverse Crop, boxes'),
  'C20b': ('GridDropout loops k over range(height // unit_depth + 1)', 'GridDropout on a volume whose depth exceeds its height by a grid unit or more'),
 }
 detected = json.load(open(os.path.join(V, 'seeded', 'detected.json'))) if os.path.exists(os.path.join(V, 'seeded', 'detected.json')) else {}
